@@ -35,7 +35,10 @@
 #define ENV_LOG 4
 #endif
 #ifndef ENV_SMALL
-#define ENV_SMALL 40	/* buffers up to this size are filled completely */
+#define ENV_SMALL 40	/* read_at buffers up to this size are filled completely */
+#endif
+#ifndef ENV_CPY_SMALL
+#define ENV_CPY_SMALL 0	/* memcpy/memset up to this size are done byte by byte */
 #endif
 
 /* ---- ghost state ------------------------------------------------------ */
@@ -203,9 +206,9 @@ static void *verif_memcpy(void *dst, const void *src, size_t n)
 #ifdef VERIF_REPLAY
 	return (memcpy)(dst, src, n);
 #else
-	if (n <= ENV_SMALL) {
+	if (n <= ENV_CPY_SMALL) {
 		size_t i;
-		for (i = 0; i < ENV_SMALL; ++i) {
+		for (i = 0; i < ENV_CPY_SMALL; ++i) {
 			if (i < n)
 				((sqfs_u8 *)dst)[i] = ((const sqfs_u8 *)src)[i];
 		}
@@ -229,9 +232,9 @@ static void *verif_memset(void *dst, int c, size_t n)
 #ifdef VERIF_REPLAY
 	return (memset)(dst, c, n);
 #else
-	if (n <= ENV_SMALL) {
+	if (n <= ENV_CPY_SMALL) {
 		size_t i;
-		for (i = 0; i < ENV_SMALL; ++i) {
+		for (i = 0; i < ENV_CPY_SMALL; ++i) {
 			if (i < n)
 				((sqfs_u8 *)dst)[i] = (sqfs_u8)c;
 		}
